@@ -24,6 +24,8 @@ CHILD = {
     'vict': [['D', 3]],
     'killer': [['D', 1], ['CANCEL', 'c1_vict', 'k']],
     'awaitv': [['AWAIT', 'c1_vict'], ['D', 1]],
+    'victf': [['D', 1], ['RAISE', 'KeyError', 'vf']],
+    'awaitf': [['AWAIT', 'c1_victf'], ['D', 1]],
     'tick': [['D', 1], ['D', 1], ['D', 1], ['D', 1]],
     'forever': [['ETERNITY']],
     # a child whose cleanup fails when it is closed: a failure that happens during the teardown of the scope
@@ -81,7 +83,7 @@ def rename(script, i):
 def cases(tier):
     thorough = tier == 'thorough'
     out = []
-    singles = [k for k in CHILD if k not in ('vict', 'killer', 'awaitv')]
+    singles = [k for k in CHILD if k not in ('vict', 'killer', 'awaitv', 'victf', 'awaitf')]
     pairs_a = ['d1', 'd2', 'f0', 'f1', 'f1b', 'f2', 'priv1', 'nest_fail', 'nest_slow', 'late1', 'waiter', 'finspawn', 'tick',
                'after2', 'at2', 'finraise']
     tri = ['d2', 'f1', 'f1b', 'nest_fail', 'waiter', 'tick'] if thorough else ['d2', 'f1', 'f1b', 'tick']
@@ -113,6 +115,12 @@ def cases(tier):
                 for order in (('vict', 'killer', 'awaitv'), ('vict', 'awaitv', 'killer')):
                     kids = [(k, False) for k in order] + ([(extra, False)] if extra else [])
                     out.append(program(kind, kids, body))
+    # siblings (and the body) that await the very child that fails: they must be aborted, not fail with it as well
+    for kind in ('scope', 'until2'):
+        for body in ('none', 'd2'):
+            for extra in ([], ['awaitf'], ['d2'], ['tick']):
+                kids = [('victf', False), ('awaitf', False)] + [(e, e == 'tick') for e in extra]
+                out.append(program(kind, kids, body))
     # spawning into the scope from outside, before and after its end
     for kind in ('scope', 'until1'):
         for body in ('none', 'd1', 'raise1'):
